@@ -223,6 +223,9 @@ def run():
             dict(target="expface", kernel="tpcn", clustering=True, mode="scalar", N=24, n_total=72, resample="syst"),
             dict(target="vonmises", kernel="rwm", clustering=False, mode="blobs", N=24, n_total=72, volume_variation=1.0)]
     cfgs += [dict(target="support", tkw=dict(f=0.6), kernel="rwm", clustering=False, mode="scalar", N=32, n_total=96, ess_ratio=3.0)]
+    # the likelihood takes extra positional and keyword arguments (log_likelihood_args / log_likelihood_kwargs)
+    cfgs += [dict(target="gauss2", kernel="tpcn", clustering=True, mode="scalar", N=32, n_total=96, like_args=True),
+             dict(target="bimodal", kernel="rwm", clustering=False, mode="blobs", N=24, n_total=72, like_args=True)]
     if not ck.quick:
         cfgs += [dict(target="support", tkw=dict(f=0.5), kernel="tpcn", clustering=False, mode="scalar", N=32, n_total=96),
                  dict(target="gauss4", kernel="tpcn", clustering=True, mode="blobs", N=40, n_total=120, cluster_every=2)]
@@ -230,7 +233,7 @@ def run():
     tasks = []
     for ci, cfg in enumerate(cfgs):
         for r in range(nseeds):
-            sch = SCHEDULES if (r == 0 or not ck.quick) else SCHEDULES[:12]
+            sch = SCHEDULES if (r == 0 or not ck.quick or cfg.get("like_args")) else SCHEDULES[:12]
             tasks.append(("tvf.checks.c13:group", dict(cfg=cfg, seed=ck.subseed("s", ci, r) % 10 ** 6, schedules=sch), None))
     for i, st, val in farm.run(tasks, timeout=1200, jobs=8, progress="C13"):
         kw = tasks[i][1]
